@@ -17,7 +17,7 @@ and the AeRes command line is also driven with --debug, judged by the ordinary c
 
 WCS forms: besides rotation-free CDELT/CD headers, pixel grids rotated by 37..271 deg written as CD matrix, PC + CDELT or
 CROTA2 (the oracle always gets the equivalent CD matrix), and RA---TAN-SIP headers with a conformal quadratic distortion of
-0.04-0.10 px at the far corner and sources of at most 1.4 beams (oracle: SipZenithal = SIP forward polynomial + ZenithalWCS); both cross-checked against
+0.015-0.04 px at the far corner and sources of at most 1.4 beams (oracle: SipZenithal = SIP forward polynomial + ZenithalWCS); both cross-checked against
 astropy.wcs at start-up; those catalogues put a source near each of the four corners and each of the four edges.
 
 Coordinates: numpy index (i, j) = (row, column), 0-based; the image area is [-0.5, n-0.5] on each axis.
@@ -136,6 +136,10 @@ class SipZenithal(wz.ZenithalWCS):
                   if 'B_%d_%d' % (p_, q) in header}
 
     def _poly(self, u, v):
+        with np.errstate(all='ignore'):          # positions far from the image: the iteration overflows to inf/nan = off image
+            return self._poly_(u, v)
+
+    def _poly_(self, u, v):
         f = sum(a * u ** p_ * v ** q for (p_, q), a in self.A.items())
         g = sum(b * u ** p_ * v ** q for (p_, q), b in self.B.items())
         return f, g
@@ -379,9 +383,11 @@ def cases(seed, tier):
             c.update(_header_params(rng, 1600 + t + 3 * rep, wz.PROJECTIONS[(t + 2 * rep) % 5]))
             c['use_cd'] = False
             out.append(c)
-    # SIP distortion (RA---TAN-SIP, conformal quadratic, 0.04-0.10 px at the far corner), compact sources: the pixel-plane
-    # Gaussian AeRes draws equals the sky Gaussian only to first order in the distortion across the source; the second-order
-    # term is ~2.3 * |C| * sigma_px of the peak (measured), kept below 3e-5 by |C| <= 3.5e-6 /px and FWHM <= 1.4 beams
+    # SIP distortion (RA---TAN-SIP, conformal quadratic, 0.015-0.04 px at the far corner), compact sources (<= 1.4 beams):
+    # the pixel-plane Gaussian AeRes draws equals the sky Gaussian only to first order in the distortion across the source;
+    # the remainder was measured to grow linearly with the amplitude (6.9e-5 of the peak at 0.10 px, 2.1e-5 at 0.03 px), so
+    # the amplitude is bounded to keep it below a third of the 1e-4 tolerance.  A source drawn at the undistorted pixel is
+    # then still off by 0.6 * shift / sigma_px ~ 0.3-1 % of the peak near the corners (30-100 tolerances).
     for t in range(4 if q else 16):
         rng = rng_for(seed, 'c14sip', t)
         c = {'kind': 'files' if t % 4 == 3 else 'model', 'corners': True, 'nsrc': int(rng.integers(2, 9)), 'fmt': fmts[t % 3],
@@ -389,7 +395,7 @@ def cases(seed, tier):
         c.update(_header_params(rng, 1700 + t, 'TAN'))
         c['use_cd'] = True
         rr = np.hypot(max(c['crpix'][0], c['shape'][1] - c['crpix'][0]), max(c['crpix'][1], c['shape'][0] - c['crpix'][1]))
-        amp = float(rng.uniform(0.04, 0.10)) / float(rr) ** 2
+        amp = float(rng.uniform(0.015, 0.04)) / float(rr) ** 2
         ang = float(rng.uniform(0, 2 * np.pi))
         c['sip'] = [float(amp * np.cos(ang)), float(amp * np.sin(ang))]
         out.append(c)
@@ -545,6 +551,7 @@ def run(case):
         if case.get('sip'):
             hdr = _sip_header(hdr, float(case['sip'][0]), float(case['sip'][1]))
             z = SipZenithal(hdr)
+            c16.set_obs(None)            # the C16 contracts' oracle does not cover distortion terms
             o.count('sip_cases')
             rr = np.hypot(max(case['crpix'][0], shape[1] - case['crpix'][0]), max(case['crpix'][1], shape[0] - case['crpix'][1]))
             o.worst('sip_distortion_at_far_corner_px', float(np.hypot(*case['sip'])) * rr ** 2)
